@@ -1,6 +1,6 @@
 (* C02, the converse inclusion for events, and the language theorem. *)
 From Coq Require Import Lia.
-From GS Require Import Base.Bytes Model.Lexer Model.LexGrammar.
+From GS Require Import Base.Bytes Model.Lexer Model.LexGrammar Model.LexerLegacyUint.
 From GS Require Import Proofs.LexerGrammar Proofs.LexerGrammarEvent Proofs.LexerGrammarWf Proofs.LexerGrammarExact.
 Local Open Scope N_scope.
 
@@ -12,31 +12,27 @@ Definition digits (ds : str) : Prop := Forall (fun b => is_digit b = true) ds.
 Lemma digit_small b : is_digit b = true -> b - c_0 <= 9.
 Proof. unfold is_digit, c_0, c_9. intros H. apply andb_prop in H as [H1 H2]. apply N.leb_le in H1, H2. lia. Qed.
 
-Lemma uint_acc_ge ds : forall v v', uint_acc v ds = Some v' -> v <= v'.
+(* the accumulation denotes the decimal value ... *)
+Lemma uint_acc_value ds : forall v v', uint_acc v ds = Some v' -> v' = fold_left digit_step ds v.
 Proof.
-  induction ds as [|b ds IH]; intros v v'; cbn [uint_acc]; [intros [= <-]; lia|].
-  destruct (N.ltb_spec (wrap_step v b) v); [discriminate|]. intros H'. apply IH in H'. lia.
+  induction ds as [|b ds IH]; intros v v'; cbn [uint_acc fold_left]; [intros [= <-]; reflexivity|].
+  destruct (_ <? v); [discriminate|]. apply IH.
 Qed.
 
-(* no wrap-around can have happened if the result is small *)
-Lemma uint_acc_small ds : digits ds -> forall v v', uint_acc v ds = Some v' -> v' <= max_uint32 ->
-  v' = fold_left digit_step ds v.
-Proof.
-  induction 1 as [|b ds Hb _ IH]; intros v v'; cbn [uint_acc fold_left]; [intros [= <-]; reflexivity|].
-  destruct (N.ltb_spec (wrap_step v b) v) as [|Hge]; [discriminate|]. intros H' Hle.
-  pose proof (uint_acc_ge _ _ _ H') as Hmono. pose proof (digit_small b Hb) as Hd.
-  assert (E : wrap_step v b = digit_step v b).
-  { unfold wrap_step, digit_step. apply N.mod_small. unfold max_uint32, two64 in *. lia. }
-  rewrite E in H'. apply IH; assumption.
-Qed.
-
+(* ... succeeds exactly when that value fits in 64 bits ... *)
 Lemma uint_acc_exact ds : forall v, fold_left digit_step ds v < two64 ->
   uint_acc v ds = Some (fold_left digit_step ds v).
 Proof.
   induction ds as [|b ds IH]; intros v Hlt; cbn [uint_acc fold_left] in *; [reflexivity|].
-  pose proof (fold_digit_ge ds (digit_step v b)). pose proof (digit_step_ge v b).
-  assert (E : wrap_step v b = digit_step v b) by (unfold wrap_step; apply N.mod_small; lia).
-  rewrite E. destruct (N.ltb_spec (digit_step v b) v); [lia|]. apply IH, Hlt.
+  pose proof (fold_digit_ge ds (digit_step v b)) as Hge.
+  rewrite uint_test_ok by (unfold digit_step, two64, max_uint64 in *; lia). apply IH, Hlt.
+Qed.
+
+Lemma uint_acc_bound ds : digits ds -> forall v v', v <= max_uint64 -> uint_acc v ds = Some v' -> v' <= max_uint64.
+Proof.
+  induction 1 as [|b ds Hb _ IH]; intros v v' Hv; cbn [uint_acc]; [intros [= <-]; exact Hv|].
+  destruct (_ <? v) eqn:E; [discriminate|]. apply IH.
+  apply uint_test_inv; [exact E|apply digit_small, Hb].
 Qed.
 
 Lemma span_digits_spec l : forall ds k, span_digits l = (ds, k) ->
@@ -61,9 +57,9 @@ Proof.
   induction l as [|b l IH]; intros Hn v c; cbn [lex_uint span_digits].
   - destruct c; reflexivity.
   - apply not_in_cons_inv in Hn as [Hb Hn]. destruct (is_digit b) eqn:Eb.
-    + specialize (IH Hn (wrap_step v b) true). destruct (span_digits l) as [d k].
-      cbn [nonempty orb uint_acc]. fold (wrap_step v b).
-      destruct (wrap_step v b <? v); [reflexivity|]. rewrite IH, orb_true_r. reflexivity.
+    + specialize (IH Hn (v * 10 + (b - c_0)) true). destruct (span_digits l) as [d k].
+      cbn [nonempty orb uint_acc].
+      destruct (_ <? v); [reflexivity|]. rewrite IH, orb_true_r. reflexivity.
     + destruct (N.eqb_spec b c_nul); [contradiction|]. cbn [nonempty orb uint_acc]. destruct c; reflexivity.
 Qed.
 
@@ -103,8 +99,8 @@ Lemma edate_digits ds : digits ds -> forall v c e tags rest,
 Proof.
   induction 1 as [|b ds Hb _ IH]; intros v c e tags rest; cbn [app uint_acc nonempty].
   - rewrite orb_false_r. reflexivity.
-  - cbn [lex_eattrs]. rewrite Hb. fold (wrap_step v b).
-    destruct (wrap_step v b <? v); [reflexivity|]. rewrite IH, orb_true_r. cbn [orb]. reflexivity.
+  - cbn [lex_eattrs]. rewrite Hb.
+    destruct (_ <? v); [reflexivity|]. rewrite IH, orb_true_r. cbn [orb]. reflexivity.
 Qed.
 
 Lemma edate_end v e tags K : pipe_or_end K ->
@@ -119,15 +115,17 @@ Qed.
 
 Lemma eattr_step' a last K e tags : wf_eattr' last a -> a <> EAOther [] -> pipe_or_end K ->
   lex_eattrs EAttr e tags (render_eattr a ++ K) =
-  lex_eattrs EAttrs (apply_eattr' e a) (rev (atags a) ++ tags) K.
+  lex_eattrs EAttrs (apply_eattr e a) (rev (atags a) ++ tags) K.
 Proof.
   intros Ha Hne Hk.
-  destruct a as [ds|s|s|low|s|al|ts|s]; cbn [render_eattr wf_eattr' atags apply_eattr' apply_eattr rev app] in *.
+  destruct a as [ds|s|s|low|s|al|ts|s]; cbn [render_eattr wf_eattr' atags apply_eattr rev app] in *.
   - change (lex_eattrs EAttr e tags (c_d :: c_colon :: ds ++ K)) with (lex_eattrs (EDate 0 false) e tags (ds ++ K)).
-    destruct Ha as ([Hnz Hd] & v & Hv & Hle). rewrite (edate_digits ds Hd), Hv.
+    destruct Ha as ([Hnz Hd] & Hle). rewrite (edate_digits ds Hd).
+    rewrite (uint_acc_exact ds 0) by (fold (digit_value ds); unfold max_int64, two64 in *; lia).
+    fold (digit_value ds).
     assert (nonempty ds = true) as -> by (destruct ds; [contradiction|reflexivity]). cbn [orb].
-    rewrite (edate_end v e tags K Hk). unfold set_date. destruct (N.ltb_spec max_int64 v); [lia|].
-    unfold date_value. rewrite Hv. reflexivity.
+    rewrite (edate_end _ e tags K Hk). unfold set_date. destruct (N.ltb_spec max_int64 (digit_value ds)); [lia|].
+    reflexivity.
   - change (lex_eattrs EAttr e tags (c_h :: c_colon :: s ++ K)) with (lex_eattrs (EField c_h []) e tags (s ++ K)).
     rewrite (eattrs_field c_h s _ [] e tags Ha Hk). reflexivity.
   - change (lex_eattrs EAttr e tags (c_k :: c_colon :: s ++ K)) with (lex_eattrs (EField c_k []) e tags (s ++ K)).
@@ -156,7 +154,7 @@ Proof. destruct a; reflexivity. Qed.
 
 Lemma eattrs_render' attrs : wf_eattrs' attrs -> forall e tags,
   lex_eattrs EAttrs e tags (render_eattrs attrs) =
-  Ok (fold_left apply_eattr' attrs e, rev (eattrs_tags attrs) ++ tags).
+  Ok (fold_left apply_eattr attrs e, rev (eattrs_tags attrs) ++ tags).
 Proof.
   induction attrs as [|a attrs IH]; intros Hwf e tags; [reflexivity|].
   destruct Hwf as [Ha Hwf]. cbn [render_eattrs fold_left].
@@ -172,7 +170,7 @@ Qed.
 
 Theorem grammar_event' pf ns dt dx title text attrs :
   wf_event_header dt dx title text -> wf_eattrs' attrs ->
-  lex pf ns (render_event' dt dx title text attrs) = OEvent (expected_event' title text attrs).
+  lex pf ns (render_event' dt dx title text attrs) = OEvent (expected_event title text attrs).
 Proof.
   intros (Ht & Hvt & Hlt & Hx & Hvx & Hlx) Hattrs. unfold render_event', render_event_digits.
   rewrite lex_event_unfold. unfold event_res.
@@ -187,28 +185,12 @@ Proof.
   rewrite (eattrs_render' attrs Hattrs), app_nil_r, rev_involutive. reflexivity.
 Qed.
 
-(* the documented sub-grammar: same rendering, same result *)
-Lemma date_value_small ds : digits ds -> digit_value ds <= max_int64 ->
-  uint_acc 0 ds = Some (digit_value ds) /\ date_value ds = digit_value ds.
+(* the documented sub-grammar: same rendering, weaker side conditions only for ignored fields *)
+Lemma wf_eattrs_sub attrs : Forall wf_eattr attrs -> wf_eattrs' attrs.
 Proof.
-  intros Hd Hle. assert (E : uint_acc 0 ds = Some (digit_value ds)).
-  { apply uint_acc_exact. fold (digit_value ds). unfold max_int64, two64 in *. lia. }
-  split; [exact E|]. unfold date_value. rewrite E. reflexivity.
-Qed.
-
-Lemma wf_eattrs_sub attrs : Forall wf_eattr attrs ->
-  wf_eattrs' attrs /\ forall e, fold_left apply_eattr' attrs e = fold_left apply_eattr attrs e.
-Proof.
-  induction 1 as [|a attrs Ha _ [IH1 IH2]]; [split; [exact I|reflexivity]|].
-  split.
-  - split; [|exact IH1]. destruct a as [ds|s|s|low|s|al|ts|s]; cbn in *; try assumption.
-    + destruct Ha as [[Hnz Hd] Hle]. split; [split; assumption|].
-      exists (digit_value ds). split; [apply date_value_small; assumption|exact Hle].
-    + destruct Ha as (Hp & b & r & -> & Hh & Hd & Hf). apply not_in_cons_inv in Hp as [_ Hp]. auto.
-  - intros e. cbn [fold_left]. rewrite IH2. f_equal.
-    destruct a as [ds| | | | | | | ]; try reflexivity.
-    cbn [apply_eattr' apply_eattr]. destruct Ha as [[_ Hd] Hle].
-    destruct (date_value_small ds Hd Hle) as [_ ->]. reflexivity.
+  induction 1 as [|a attrs Ha _ IH]; [exact I|]. split; [|exact IH].
+  destruct a as [ds|s|s|low|s|al|ts|s]; cbn in *; try assumption.
+  destruct Ha as (Hp & b & r & -> & Hh & Hd & Hf). apply not_in_cons_inv in Hp as [_ Hp]. auto.
 Qed.
 
 (* ---------------------------------------------------------------------------------------- *)
@@ -256,7 +238,8 @@ Proof.
   - destruct (parse_num max_int64 data) as [[[ds v] k]|] eqn:En; [|discriminate].
     destruct k; [|discriminate]. injection H as <-.
     apply parse_num_spec in En as (E & Hnum & Hv & Hle & _). rewrite app_nil_r in E. subst ds.
-    repeat split; try (apply Hnum); [eauto|discriminate].
+    apply uint_acc_value in Hv. fold (digit_value data) in Hv. subst v.
+    repeat split; try (apply Hnum); [exact Hle|discriminate].
   - injection H as <-. repeat split; [exact Hp|discriminate].
   - injection H as <-. repeat split; [exact Hp|discriminate].
   - destruct (str_eqb_spec data str_low) as [->|_]; [injection H as <-; repeat split; discriminate|].
@@ -443,8 +426,8 @@ Proof.
   destruct (nth_error r6 (N.to_nat tl)) as [b|] eqn:Hnth; [|discriminate].
   destruct (N.eqb_spec b c_pipe) as [->|]; [|discriminate]. cbn [negb].
   destruct (body_shape r6 tl xl (proj2 (N.ge_le_iff _ _) Hlen) Hnth) as (Eshape & Et & Ex).
-  pose proof (uint_acc_small dt' (proj2 Hdt) 0 tl Hat Hlt) as Evt. fold (digit_value dt') in Evt.
-  pose proof (uint_acc_small dx' (proj2 Hdx) 0 xl Hax Hlx) as Evx. fold (digit_value dx') in Evx.
+  pose proof (uint_acc_value dt' 0 tl Hat) as Evt. fold (digit_value dt') in Evt.
+  pose proof (uint_acc_value dx' 0 xl Hax) as Evx. fold (digit_value dx') in Evx.
   assert (Hhead : forall t x, t = firstn (N.to_nat tl) r6 -> x = firstn (N.to_nat xl) (skipn (N.to_nat (tl + 1)) r6) ->
             wf_event_header dt' dx' t x).
   { intros t x -> ->. unfold wf_event_header. rewrite Et, Ex, <- Evt, <- Evx. auto 10. }
@@ -560,7 +543,7 @@ Theorem accepted_event_only_grammar pf ns l e : ~ In c_nul l -> lex pf ns l = OE
     parse_to_spec l = Some (SEvent dt dx title text attrs) /\
     wf_event_header dt dx title text /\ wf_eattrs' attrs /\
     l = render_event' dt dx title text attrs /\
-    e = expected_event' title text attrs.
+    e = expected_event title text attrs.
 Proof.
   intros Hnul Hlex. destruct l as [|b r]; [discriminate|].
   destruct (N.eqb_spec b c_us) as [->|Hu].
@@ -580,7 +563,7 @@ Proof.
     destruct (parse_event_sound r0 dt dx title text attrs Hs) as (Hr & Hh & Hwf).
     exists dt, dx, title, text, attrs. specialize (Hwf Hn0).
     split; [exact Hs|]. split; [exact Hh|]. split; [exact Hwf|]. split; [exact Hr|].
-    assert (E2 : lex pf ns (c_us :: c_e :: r0) = OEvent (expected_event' title text attrs)).
+    assert (E2 : lex pf ns (c_us :: c_e :: r0) = OEvent (expected_event title text attrs)).
     { rewrite Hr. apply grammar_event'; assumption. }
     rewrite E in E2. congruence.
   - exfalso. unfold lex, lex_gen in Hlex. apply N.eqb_neq in Hu. rewrite Hu in Hlex.
@@ -635,7 +618,7 @@ Theorem language pf ns l : ~ In c_nul l ->
        l = render_metric' raw val ty attrs /\ expected_metric pf ns raw val ty attrs = OMetric m) /\
   (forall e, lex pf ns l = OEvent e <->
      exists dt dx title text attrs, wf_event_header dt dx title text /\ wf_eattrs' attrs /\
-       l = render_event' dt dx title text attrs /\ e = expected_event' title text attrs).
+       l = render_event' dt dx title text attrs /\ e = expected_event title text attrs).
 Proof.
   intros Hn. split.
   - intros m. split.
@@ -653,25 +636,15 @@ Qed.
 (* ---------------------------------------------------------------------------------------- *)
 (* quirks of the event grammar *)
 
-(* the overflow test of lexUint misses a wrap-around: "d:21000000000000000000" (2.1e19 > 2^64)
-   is accepted as the date 2553255926290448384 = 2.1e19 - 2^64 *)
-Example quirk_date_wraps :
-  let ds := [50;49;48;48;48;48;48;48;48;48;48;48;48;48;48;48;48;48;48;48] in
-  digit_value ds = 21000000000000000000 /\ two64 <= digit_value ds /\
-  wf_eattr' true (EADate ds) /\ date_value ds = 2553255926290448384 /\
-  forall pf ns, lex pf ns (render_event' [49] [49] [97] [98] [EADate ds]) =
-    OEvent {| e_title := [97]; e_text := [98]; e_date := 2553255926290448384; e_host := []; e_key := [];
-              e_pri := 0; e_stype := []; e_alert := 0; e_tags := [] |}.
+(* a numeral is accepted exactly when its decimal value fits in 64 bits, and denotes that value *)
+Lemma numeral_value ds : digits ds ->
+  (forall v, uint_acc 0 ds = Some v <-> v = digit_value ds /\ digit_value ds <= max_uint64).
 Proof.
-  cbv zeta. split; [vm_compute; reflexivity|]. split; [vm_compute; discriminate|].
-  split; [|split; [vm_compute; reflexivity|intros; vm_compute; reflexivity]].
-  split; [split; [discriminate|repeat constructor]|].
-  eexists; split; [vm_compute; reflexivity|vm_compute; discriminate].
+  intros Hd v. split.
+  - intros H. pose proof (uint_acc_value ds 0 v H) as E. fold (digit_value ds) in E. subst v. split; [reflexivity|].
+    apply (uint_acc_bound ds Hd 0); [unfold max_uint64; lia|exact H].
+  - intros [-> Hle]. apply uint_acc_exact. fold (digit_value ds). unfold max_uint64, two64 in *. lia.
 Qed.
-
-(* ... but never for the two lengths: an accepted header denotes the true lengths *)
-Lemma quirk_lengths_never_wrap ds v : digits ds -> uint_acc 0 ds = Some v -> v <= max_uint32 -> v = digit_value ds.
-Proof. intros Hd Hv Hle. exact (uint_acc_small ds Hd 0 v Hv Hle). Qed.
 
 (* an empty event field swallows the next one; p:normal and t:info do not reset *)
 Lemma quirk_event_empty_field_swallows_next pf ns dt dx title text g attrs :
@@ -684,8 +657,8 @@ Proof.
 Qed.
 
 Lemma quirk_normal_info_do_not_reset e :
-  apply_eattr' (apply_eattr' e (EAPri true)) (EAPri false) = apply_eattr' e (EAPri true) /\
-  apply_eattr' (apply_eattr' e (EAAlert AError)) (EAAlert AInfo) = apply_eattr' e (EAAlert AError).
+  apply_eattr (apply_eattr e (EAPri true)) (EAPri false) = apply_eattr e (EAPri true) /\
+  apply_eattr (apply_eattr e (EAAlert AError)) (EAAlert AInfo) = apply_eattr e (EAAlert AError).
 Proof. split; reflexivity. Qed.
 
 (* the quirks in one statement (for Props/C02.v) *)
@@ -698,22 +671,29 @@ Theorem quirks (pf : str -> pfres) (ns : str) :
   (forall dt dx title text g attrs, wf_event_header dt dx title text -> ~ In c_pipe g -> wf_eattrs' attrs ->
      lex pf ns (render_event' dt dx title text (EAOther (c_pipe :: g) :: attrs)) =
      lex pf ns (render_event' dt dx title text attrs)) /\
-  (forall ds v, Forall (fun b => is_digit b = true) ds -> uint_acc 0 ds = Some v -> v <= max_uint32 ->
-     v = digit_value ds) /\
-  (exists ds, two64 <= digit_value ds /\ wf_eattr' true (EADate ds) /\ date_value ds = digit_value ds - two64).
+  (forall ds v, Forall (fun b => is_digit b = true) ds ->
+     (uint_acc 0 ds = Some v <-> v = digit_value ds /\ digit_value ds <= max_uint64)).
 Proof.
   split; [exact (quirk_empty_field_swallows_next pf ns)|]. split; [exact (quirk_trailing_pipe pf ns)|].
-  split; [exact (quirk_event_empty_field_swallows_next pf ns)|]. split; [exact quirk_lengths_never_wrap|].
-  exists [50;49;48;48;48;48;48;48;48;48;48;48;48;48;48;48;48;48;48;48].
-  split; [vm_compute; discriminate|]. split; [|vm_compute; reflexivity].
-  split; [split; [discriminate|repeat constructor]|].
-  eexists; split; [vm_compute; reflexivity|vm_compute; discriminate].
+  split; [exact (quirk_event_empty_field_swallows_next pf ns)|]. intros ds v Hd. exact (numeral_value ds Hd v).
 Qed.
+
+(* Defect D11 (found through the quirk "a date numeral can wrap", repaired in /repo 162b292): the
+   lexer before the repair accepts d:21000000000000000000 (2.1e19 > 2^64) as the date
+   2553255926290448384 = 2.1e19 - 2^64; the current one rejects the line. *)
+Definition d11_line : str :=   (* "_e{1,1}:a|b|d:21000000000000000000" *)
+  [95;101;123;49;44;49;125;58;97;124;98;124;100;58;50;49;48;48;48;48;48;48;48;48;48;48;48;48;48;48;48;48;48;48].
+
+Theorem legacy_refuted_uint_wrap (pf : str -> pfres) (ns : str) :
+  lex_uint_wrap_legacy pf ns d11_line =
+    OEvent {| e_title := [97]; e_text := [98]; e_date := 2553255926290448384; e_host := []; e_key := [];
+              e_pri := 0; e_stype := []; e_alert := 0; e_tags := [] |} /\
+  lex pf ns d11_line = OReject EOverflow.
+Proof. split; vm_compute; reflexivity. Qed.
 
 Theorem documented_subgrammar :
   (forall attrs, Forall wf_attr attrs -> wf_attrs' attrs) /\
-  (forall attrs, Forall wf_eattr attrs ->
-     wf_eattrs' attrs /\ forall e, fold_left apply_eattr' attrs e = fold_left apply_eattr attrs e) /\
+  (forall attrs, Forall wf_eattr attrs -> wf_eattrs' attrs) /\
   (forall raw val ty attrs, render_metric' raw val ty attrs = render_metric raw val ty attrs) /\
   (forall dt dx title text attrs, render_event' dt dx title text attrs = render_event_digits dt dx title text attrs).
 Proof. split; [exact wf_attrs_sub|]. split; [exact wf_eattrs_sub|]. split; reflexivity. Qed.
